@@ -37,7 +37,7 @@ def eval_config(frame, target_names, policy):
              "iou_3d_thresholds": [0.5], "min_point_numbers": [0] * n, "max_matchable_radii": 5.0, "label_prefix": "autoware",
              "merge_similar_labels": False, "matching_label_policy": policy}
         _EC_CACHE[key] = PerceptionEvaluationConfig(["/repo/perception_eval/test/sample_data"], frame,
-                                                    os.path.join(BUILD, "c03_results"), d, False)
+                                                    os.path.join(BUILD, "c03_results", str(os.getpid())), d, False)
     return _EC_CACHE[key]
 
 
@@ -132,6 +132,11 @@ def accounting_oracle(case, obs):
         if not doc_keep(gf[g], cfg, True, True):
             return f"ground truth {g} is counted although it is outside the critical region / criteria: {gf[g]}"
     want_gts = [i for i, f in enumerate(gf) if doc_keep(f, cfg, True, True)]
+    if cfg.get("conf") is not None:
+        by_conf = [g for g in want_gts if g not in crit_gts and not doc_keep(gf[g], cfg, False, True)]
+        if by_conf:
+            return (f"ground truth {by_conf[0]} is removed from the critical ground truths by the confidence threshold list {cfg['conf']} "
+                    f"(documented: used for estimates only): {gf[by_conf[0]]}")
     if want_gts != crit_gts:
         return f"critical ground truths are {crit_gts} but the critical criteria select {want_gts}"
     gt_cfg = {k: v for k, v in cfg.items() if k != "conf"}
@@ -253,7 +258,7 @@ def gen_frame(rng, stream):
     if rng.random() < 0.4:
         crit["min_pts"] = [rng.choice([0, 1, 3, 5]) for _ in range(n_c)]
     if rng.random() < 0.4:
-        crit["conf"] = [rng.choice([0.0, 0.25, 0.5, 0.75]) for _ in range(n_c)]
+        crit["conf"] = [rng.choice([0.0, 0.25, 0.5, 0.5, 0.75, 1.0, 1.5]) for _ in range(n_c)]   # incl. = / above the GT score 1.0
     if rng.random() < 0.25:
         crit["uuids"] = rng.sample(UUIDS, rng.choice([0, 2, 3, 4]))
     if rng.random() < 0.25:
@@ -280,7 +285,12 @@ def _e(label, xy, conf=0.5, frame="base_link", ego=None):
 
 
 def _regressions():
-    out = []
+    # witness of the repaired defect (/repo 54ea74c): confidence threshold 1.0 for the ground truth's label = its own score;
+    # it used to give 0 critical ground truths but fn=[0]
+    out = [{"frame": "base_link", "ego": EGO_POSES[0], "stream": "regression", "policy": "DEFAULT",
+            "ests": [_e("car", (1.0, 0.0), conf=0.9)], "gts": [_g("pedestrian", (1.0, 0.0))], "pairs": [[0, 0]],
+            "crit": {"targets": ["car", "pedestrian"], "max_x": [10.0, 10.0], "max_y": [10.0, 10.0], "conf": [0.5, 1.0]},
+            "pf": {"targets": ["car", "pedestrian"], "thresholds": [1.0, 1.0]}}]
     for frame, ego in (("base_link", EGO_POSES[0]), ("map", EGO_POSES[1]), ("map", EGO_POSES[3])):
         # the witness of the former `transform=` typo (F1): in the map frame an estimate far outside the
         # critical region paired with nothing, one inside paired with the only critical GT
@@ -331,6 +341,9 @@ class FrameResultCorr(Corr):
     shard = 60
 
     def cases(self, tier, rng):
+        import shutil
+
+        shutil.rmtree(os.path.join(BUILD, "c03_results"), ignore_errors=True)   # log dirs of earlier runs (one per worker process)
         out = _regressions()
         n = 420 if tier == "quick" else 6000
         for _ in range(n):
@@ -427,7 +440,7 @@ class ManagerCorr(FrameResultCorr):
     def cases(self, tier, rng):
         out = []
         n = 120 if tier == "quick" else 1500
-        for c in _regressions()[:4] + [gen_frame(rng, "typical" if rng.random() < 0.7 else "boundary") for _ in range(n)]:
+        for c in _regressions()[:5] + [gen_frame(rng, "typical" if rng.random() < 0.7 else "boundary") for _ in range(n)]:
             c = dict(c)
             c["crit"] = dict(c["crit"])
             c["crit"].pop("uuids", None)
@@ -518,7 +531,6 @@ class C03(Prop):
             "filters with optional point/confidence/uuid/ignore criteria; non-trivial = at least two of TP/FP/TN/FN non-empty and something filtered")
     assumptions = ["matching one-to-one (C01) and every matched ground truth belongs to the frame",
                    "ground-truth __eq__ keys (time, label, position, orientation) pairwise distinct",
-                   "the confidence criterion does not exclude ground truth (GT semantic_score 1.0 above every threshold), see C03_gt_confidence_gap",
                    "well-formed critical filter and pass/fail configuration (lists as long as their target lists)"]
     not_proved = ["2D tasks (IOU2D pass/fail score)", "metrics_score side of evaluate_frame (C04/C05)",
                   "sequences of frames: evaluate_frame is a function of its frame only in the model (history independence is C13)"]
